@@ -1,4 +1,5 @@
 import HmcVerif.Model.Tempering
+import HmcVerif.Model.Controller
 import HmcVerif.Real.AsyncThm
 import HmcVerif.Props.C12
 import Mathlib.Data.List.Basic
@@ -131,6 +132,73 @@ theorem solo_columns (kern : Nat → V × α → V × α) (P : Nat) (st : ChainS
     | nil => intro st; rfl
     | cons k rest ih => intro st; rw [List.foldl_cons, ih]; simp [soloStep]; omega
   rw [this, List.length_range]
+
+/-! ### the controller: reading results while waiting never deadlocks, joining first does -/
+section controller
+open Controller
+
+/-- invariant of every reachable controller state -/
+def CInv (n : Nat) (s : St) : Prop := s.waiting + s.exited = n ∧ s.queued + s.collected = s.exited
+
+theorem cinv_init (n : Nat) : CInv n (Controller.init n) := by simp [CInv, Controller.init]
+
+theorem cinv_step (n cap : Nat) (s s' : St) (h : CInv n s) (hs : childPut cap s = some s' ∨ ctrlGet s = some s') : CInv n s' := by
+  obtain ⟨h1, h2⟩ := h
+  rcases hs with hs | hs
+  · unfold childPut at hs
+    split at hs
+    · rename_i hc; simp only [Option.some.injEq] at hs; subst hs; simp only [CInv]; omega
+    · simp at hs
+  · unfold ctrlGet at hs
+    split at hs
+    · rename_i hc; simp only [Option.some.injEq] at hs; subst hs; simp only [CInv]; omega
+    · simp at hs
+
+/-- **for every number of chains and every queue capacity ≥ 1**: a controller that reads results while
+    the chains run is stuck only when everything is finished -/
+theorem controller_no_deadlock (n cap : Nat) (hcap : 0 < cap) (s : St) (h : CInv n s) (hstuck : drainFirstStuck cap s = true) :
+    finished n s := by
+  obtain ⟨h1, h2⟩ := h
+  simp only [drainFirstStuck, Bool.and_eq_true, Option.isNone_iff_eq_none] at hstuck
+  obtain ⟨hc, hg⟩ := hstuck
+  have hq : s.queued = 0 := by
+    unfold ctrlGet at hg
+    split at hg
+    · simp at hg
+    · omega
+  have hw : s.waiting = 0 := by
+    unfold childPut at hc
+    split at hc
+    · simp at hc
+    · rename_i hn; rw [hq] at hn; simp only [not_and, not_lt] at hn
+      by_contra hne
+      have := hn (Nat.pos_of_ne_zero hne)
+      omega
+  exact ⟨hw, hq, by omega, by omega⟩
+
+/-- … and it makes progress: the number of outstanding actions strictly decreases with every step,
+    so the run terminates -/
+theorem controller_progress (cap : Nat) (s s' : St) (hs : childPut cap s = some s' ∨ ctrlGet s = some s') :
+    2 * s'.waiting + s'.queued < 2 * s.waiting + s.queued := by
+  rcases hs with hs | hs
+  · unfold childPut at hs
+    split at hs
+    · simp only [Option.some.injEq] at hs; subst hs; simp only; omega
+    · simp at hs
+  · unfold ctrlGet at hs
+    split at hs
+    · simp only [Option.some.injEq] at hs; subst hs; simp only; omega
+    · simp at hs
+
+/-- the original controller (join all chains, then read): with more chains than the queue's pipe
+    holds it deadlocks — `cap` chains have exited, the others wait for room, nobody reads -/
+theorem join_first_deadlocks (n cap : Nat) (h : cap < n) :
+    joinFirstStuck cap { waiting := n - cap, queued := cap, exited := cap, collected := 0 } = true ∧
+    CInv n { waiting := n - cap, queued := cap, exited := cap, collected := 0 } := by
+  constructor
+  · simp [joinFirstStuck, childPut]; omega
+  · simp only [CInv]; omega
+end controller
 
 /-! ### non-vacuity -/
 example : chainArgs (0 : Nat) (0 : Nat) (fun a b => a + b) (.each [7, 8, 9]) (.shared 1) 100 2 = (9, 101) := by decide
